@@ -15,10 +15,10 @@ var lim = kernel.Limits{MaxSteps: 400, SettleSteps: 900}
 
 // Specs lists the checks this world binary serves.
 func Specs() []kernel.Spec {
-	return []kernel.Spec{
+	return lockSpecs([]kernel.Spec{
 		{Prop: "C16", Mk: New(Mode{}), Limits: lim},
 		{Prop: "C16scanner", Mk: New(Mode{Scanner: true}), Limits: lim},
-	}
+	}, lim)
 }
 
 func TestSim(t *testing.T) { kernel.Main(t, "scan", Specs()) }
